@@ -205,6 +205,8 @@ def profile_cases(rng, quick):
         if introns:
             cases.append(("intron_profile", {"known": introns, "gene_region": gr, "d": d, "abs_d": 20, "blocks": blocks,
                                              "polya": pa, "polyt": pt}))
+    # loci with 128..400+ annotated features (seed C01_a4): both constructors, both absence conditions
+    cases += G.big_locus_profile_cases(rng, 4 if quick else 40)
     cases.append(("exon_profile", {"known": [(1, 2)], "gene_region": (1, 2), "d": 0, "blocks": [], "polya": -1, "polyt": -1}))
     cases.append(("intron_profile", {"known": [(1, 2)], "gene_region": (1, 2), "d": 0, "abs_d": 1, "blocks": [], "polya": -1, "polyt": -1}))
     return cases
